@@ -87,8 +87,8 @@ FeeInside(s, p, x, isA) ==
   LET pool == s.pool[p]
       lo   == TickOf(s, p, x.lo)
       up   == TickOf(s, p, x.up)
-  IN IF isA THEN GrowthInside(pool.tick, x.lo, x.up, pool.fgA, lo.foA, up.foA)
-     ELSE GrowthInside(pool.tick, x.lo, x.up, pool.fgB, lo.foB, up.foB)
+  IN IF isA THEN GrowthInside(pool.tick, x.lo, x.up, pool.fgA, lo.init, lo.foA, up.init, up.foA)
+     ELSE GrowthInside(pool.tick, x.lo, x.up, pool.fgB, lo.init, lo.foB, up.init, up.foB)
 
 Pending(s, p, x, isA) ==
   Credit(x.liq, WSub(FeeInside(s, p, x, isA), IF isA THEN x.cpA ELSE x.cpB))
